@@ -45,21 +45,27 @@ def gen_cases(seed, tier):
         dict(ns=20000, nbatch=8192, workers=8, n=96), dict(ns=40000, nbatch=16384, workers=8, n=64), dict(ns=12000, nbatch=8192, workers=8, n=64),
         dict(ns=33000, nbatch=6144, workers=5, n=96), dict(ns=26000, nbatch=4096, workers=3, n=96), dict(ns=15000, nbatch=16384, workers=4, n=64),
         dict(ns=30000, nbatch=8192, workers=2, n=384), dict(ns=22000, nbatch=6144, workers=7, n=64),
+        # boundary lengths: the last batch is exactly full (ns = nbatch + k * stride), one sample less, one more, and a single full batch
+        dict(ns=8192 + 2 * 6144, nbatch=8192, workers=3, n=64), dict(ns=8192, nbatch=8192, workers=2, n=64),
+        dict(ns=6144 + 3 * 4096 - 1, nbatch=6144, workers=4, n=64), dict(ns=4096 + 5 * 2048 + 1, nbatch=4096, workers=6, n=64),
     ]
-    k = 8 if tier == "quick" else 160
+    k = 12 if tier == "quick" else 160
     for i in range(k):
         if i < len(base):
             c = dict(base[i])
         else:
             c = dict(ns=int(rng.integers(12000, 90001)), nbatch=int(rng.choice([4096, 6144, 8192, 16384])), workers=int(rng.integers(1, 9)),
                      n=int(rng.choice([64, 96, 96, 384])))
-        c.update(cls="sched", seed=seed * 1000 + i, opt=i % 7, _w=6 + c["ns"] / 10000 * (c["n"] / 96))
+            if i % 5 == 0:      # aligned lengths: the last batch exactly full, +-1
+                c["ns"] = c["nbatch"] + int(rng.integers(0, 8)) * (c["nbatch"] - 2 * TAPER) + int(rng.choice([-1, 0, 0, 1]))
+        c.update(cls="sched", seed=seed * 1000 + i, opt=(i % 7) if i < 8 or i >= 12 else [2, 0, 2, 0][i - 8], _w=6 + c["ns"] / 10000 * (c["n"] / 96))
         cases.append(c)
     for i in range(2 if tier == "quick" else 10):
         cases.append(dict(cls="loky", ns=int(rng.integers(14000, 40000)), nbatch=int(rng.choice([4096, 8192])), n=64, seed=seed * 1000 + 500 + i,
                           counts=[1, 2, 3, 5, 8] if tier == "quick" else [1, 2, 3, 4, 5, 6, 7, 8], _w=12))
-    for i in range(1 if tier == "quick" else 6):
-        cases.append(dict(cls="append", ns=int(rng.integers(13000, 26000)), nbatch=8192, n=64, workers=int(rng.integers(2, 6)), seed=seed * 1000 + 700 + i, _w=8))
+    for i in range(2 if tier == "quick" else 8):
+        cases.append(dict(cls="append", ns=int(rng.integers(13000, 26000)) if i % 2 else 8192 + 6144, nbatch=8192, n=64, workers=int(rng.integers(2, 6)),
+                          seed=seed * 1000 + 700 + i, _w=8))
     return cases
 
 
